@@ -899,6 +899,12 @@ func TestVerifC19(t *testing.T) {
 		t.Fatalf("cannot load replay %s", rp)
 	}
 	for _, l := range vfutil.Corpus("C19") {
+		// a client-harness scenario is ONE line `{"name":…,"batches":…}`; corpus/C19 also holds
+		// witnesses of the sender harness (pretty-printed replays), which are not scenarios
+		if !strings.HasPrefix(l, `{"name":`) {
+			s.Count("corpus_line_skipped")
+			continue
+		}
 		var scn vfcScn
 		if err := json.Unmarshal([]byte(l), &scn); err != nil {
 			t.Fatalf("bad corpus line: %v", err)
